@@ -123,6 +123,79 @@ def corpus_groups():
     return groups
 
 
+def file_bytes(drv, fs):
+    """the bytes of a file description (written by carquet through the driver, or already given)"""
+    if fs._impl is not None:
+        return bytes.fromhex(fs._impl[2:])
+    out, rcode, err = vlib.run_lines(drv, [f"hex {fs.text()}"], env=ENV)
+    t = out[0].split() if out else []
+    return bytes.fromhex(t[1]) if len(t) == 2 and t[0] == "OK" else None
+
+
+def clone_with_bytes(fs, data):
+    g = FileSpec(fs.codec, fs.cols, fs.rgs, dict_encoded=fs.dict_encoded)
+    g._text = fs.text()
+    return g.use_bytes(data)
+
+
+def requests_for(fs, opts, rng, tag):
+    """metadata dump, one-shot read + one history of the first and the last column, two batch configurations -
+    each in the three modes with the reader options `opts` (the text after the mode in a case line)"""
+    groups = [[C02.Case(kind="meta", fs=fs, mode=m, tag=tag, line=f"meta {m} {opts} {fs.impl_text()}", mline=None) for m in MODES]]
+    nc = len(fs.cols)
+    for c in sorted({0, nc - 1}):
+        n = len(fs.rows(0, c))
+        for h in ((("r", n + 1),), rng.choice(rc.histories(min(n, 4), min(n, 4) + 1)) if n else None):
+            if h:
+                groups.append([C02.col_case(fs, 0, c, m, rc.ops_text(h), tag, verify=opts) for m in MODES])
+    for bs in (2, 64):
+        groups.append([C02.bat_case(fs, m, bs, "all", list(range(nc)), tag, verify=opts) for m in MODES])
+    return groups
+
+
+def option_and_footer_groups(drv, tier, rng, fls):
+    """(a) every field of carquet_reader_options_t that is not the mode itself is swept: buffer_size around the footer
+    length (and 1, 7, 8, 9, 4096, 65536), num_threads 0/1/3/16, verify_checksums 0/1;
+    (b) the same small files with the footer padded (created_by) to lengths at and around powers of two and around
+    the default buffer_size of 64 KiB.  All three modes must agree on every request."""
+    thorough = tier == "thorough"
+    groups = []
+    srcs = []
+    for fs in fls:
+        if len(srcs) >= (4 if thorough else 3):
+            break
+        if len(fs.rgs[0][0]) and sum(len(p) for p in fs.rgs[0][0]) >= 2 and (fs._impl is None) == (len(srcs) != 2):
+            b = file_bytes(drv, fs)
+            if b:
+                srcs.append((fs, b))
+    for fs, b in srcs:
+        g = clone_with_bytes(fs, b)
+        fl = rc.footer_len(b)
+        sizes = sorted({1, 7, 8, 9, 4096, 65536, len(b) - 1, len(b), len(b) + 1} | set(range(max(fl - 8, 0), fl + 17)))
+        for bsz in sizes:
+            for verify in ((1, 0) if bsz in (fl, fl + 8, 8) else (1,)):
+                groups += requests_for(g, f"{verify},b{bsz}", rng, "options")
+        for th in (0, 1, 3, 16):
+            groups += requests_for(g, f"1,t{th}", rng, "options")
+            groups += requests_for(g, f"0,b{fl + 3},t{th}", rng, "options")
+    # (b) footer lengths
+    fs, b = srcs[0]
+    targets = set(range(65536 - 9, 65536 + 10))
+    for k in range(8, 16):
+        targets |= {2 ** k + d for d in ((-9, -8, -7, -1, 0, 1, 7, 8, 9) if (thorough or k in (12, 15)) else (-8, -1, 0, 8))}
+    for t in sorted(targets):
+        pb = rc.pad_footer(b, t)
+        if pb is None:
+            continue
+        g = clone_with_bytes(fs, pb)
+        groups += requests_for(g, "1", rng, "footerlen")
+        p2 = 1 << (t - 1).bit_length() if t > 1 else 1
+        for bsz in sorted({p2, p2 // 2} - {65536}):
+            if abs(bsz - t) <= 16:
+                groups += requests_for(g, f"1,b{bsz}", rng, "footerlen")
+    return groups
+
+
 def footer_cases(drv, tier, rng, fls):
     """(line, expectation) for the footer-location tie.  expectation: 'ok' (a valid file), 'fail' (no mode may open
     it), 'head' (leading magic damaged: stdio does not look at it), None (whatever)"""
@@ -181,15 +254,31 @@ def run(tier):
     rep.cov["rule"] = ("each request (metadata dump | column-reader history | batch_size x projection) is issued in the three I/O "
                        "modes on the same file, with verify_checksums on and off; files: 6 codecs x type mixes with zero-copy "
                        "eligible and non-eligible columns, 1..3 pages per chunk, 1..3 row groups, dictionary-encoded files from "
-                       "tools/pq.py; evaluations = requests x 3; non-trivial = everything but metadata dumps; footer tie on "
+                       "tools/pq.py; reader options sweep (buffer_size 1,7,8,9, footer_len-8..+16, file size, 4096, 65536; "
+                       "num_threads 0,1,3,16; checksums on/off) and footers padded to lengths at and around 2^8..2^16; "
+                       "evaluations = requests x 3; non-trivial = everything but metadata dumps; footer tie on "
                        "damaged heads, tails and length fields")
     try:
         drv = build_driver("h_reader")
     except vlib.BuildError as e:
         rep.tie_broken("harness does not build against the current tree: " + str(e)[:500])
         return rep.finish()
+    # tie (a): which reader options reach the code at all
+    try:
+        gspec = importlib.util.spec_from_file_location("gen_reader", vlib.VERIF / "tools" / "gen.d" / "reader.py")
+        gmod = importlib.util.module_from_spec(gspec)
+        gspec.loader.exec_module(gmod)
+        used = gmod.reader_options_read(vlib.REPO)
+        rep.cov["reader_options_read_by_src_reader"] = used
+        extra = sorted(set(used) - {"use_mmap", "verify_checksums"})
+        if extra:
+            rep.tie_broken("src/reader now reads reader option(s) " + ", ".join(f"{k} ({'/'.join(used[k])})" for k in extra) +
+                           ": a configuration the I/O-mode model (Reader/IoModeModel.v) does not have; the options sweep of "
+                           "this check still searches for a failing input")
+    except Exception as e:
+        rep.tie_broken("tools/gen.d/reader.py could not list the reader options the code reads: " + str(e)[:200])
     fls = files(tier, rng)
-    groups = corpus_groups() + gen_cases(tier, rng, fls)
+    groups = corpus_groups() + gen_cases(tier, rng, fls) + option_and_footer_groups(drv, tier, rng, fls)
     cases = [c for g in groups for c in g]
     lines = [c.line for c in cases]
     log(f"C03: {len(groups)} requests x 3 modes")
